@@ -79,6 +79,15 @@ func (authStateBase) receiveDHCommitMessage(c *Conversation, msg []byte) (authSt
 	return authStateNone{}.receiveDHCommitMessage(c, msg)
 }
 
+func (s authStateAwaitingSig) receiveDHCommitMessage(c *Conversation, msg []byte) (authState, messageWithHeader, error) {
+	//A malformed DH-commit must not make us abandon the exchange in progress
+	if err := (&dhCommit{}).deserialize(msg); err != nil {
+		return s, nil, err
+	}
+
+	return authStateNone{}.receiveDHCommitMessage(c, msg)
+}
+
 func (s authStateNone) receiveDHCommitMessage(c *Conversation, msg []byte) (authState, messageWithHeader, error) {
 	c.ake.wipe(true)
 
